@@ -627,10 +627,15 @@ var baseSetup = []string{
 	"op tx u1 add " + H(setBase) + " 28 " + H("2a00::1"),
 	"op tx u1 add " + H(setBase) + " 5 " + H("zz.aaa"),
 	"op tx u1 add " + H(setBase) + " 16 " + H("t0"),
+	// TXT records at ids 1..3 whose texts are valid values of the other types: duplicates are a matter of ONE type,
+	// setRecord(A/AAAA/CNAME, 0, <that text>) must be accepted
+	"op tx u1 add " + H(setBase) + " 16 " + H("8.8.4.4"),
+	"op tx u1 add " + H(setBase) + " 16 " + H("2a00::4"),
+	"op tx u1 add " + H(setBase) + " 16 " + H("z.aaa"),
 }
 
 const recBase = "zz.aaa" // registered to u1; dry addRecord calls never fill its slots (TXT ids 0 and 1 only)
-const setBase = "a.aaa"  // registered to u1; holds exactly one A, AAAA, CNAME and TXT record (id 0)
+const setBase = "a.aaa"  // registered to u1; holds exactly one A, AAAA and CNAME record (id 0) and TXT records 0..3
 
 // begin starts a case whose state is produced by the setup ops; the chain is reused when the previous case
 // had the same setup and executed dry runs only.
@@ -1107,6 +1112,8 @@ func (g *gen) generate() {
 				g.op(fmt.Sprintf("op dry u1 set %s %d 2 %s", H(recBase), t, H(d)))
 			}
 		}
+		// the text of a record of ANOTHER type of the same name at a different id is no duplicate (both directions)
+		g.crossTypeProbes("dry")
 		// setRecord: ids, signer sets, the identical value, the value of another id, a second CNAME
 		for _, t := range []int{typA, typCNAME, typTXT, typAAAA} {
 			good := map[int]string{typA: "8.8.8.8", typCNAME: "zz.aaa", typTXT: "t0", typAAAA: "2a00::1"}[t]
@@ -1157,6 +1164,38 @@ func (g *gen) generate() {
 	}
 	for i, sh := range shapes {
 		g.chain(g.run.Rand(2000+i), sh)
+	}
+	// 8. duplicates are per type: committed
+	if g.run.Shard == 0 {
+		g.begin("cross-type", baseSetup)
+		g.crossTypeProbes("tx")
+	}
+}
+
+// crossTypeProbes: on setBase (A#0 8.8.8.8, AAAA#0 2a00::1, CNAME#0 zz.aaa, TXT#0..3 t0, 8.8.4.4, 2a00::4, z.aaa) set a record to
+// the text that a record of another type holds at a different id. "record already exists" speaks of the records of one type
+// (addRecord accepts every one of these values); the well-formed data must be accepted.
+func (g *gen) crossTypeProbes(mode string) {
+	n := H(setBase)
+	for _, l := range []string{
+		// second records of A and AAAA, so that the mirrored direction has a different id to collide with
+		fmt.Sprintf("op %s u1 add %s 1 %s", mode, n, H("9.9.9.9")),
+		fmt.Sprintf("op %s u1 add %s 28 %s", mode, n, H("2a00::9")),
+		fmt.Sprintf("op %s u1 set %s 1 0 %s", mode, n, H("8.8.4.4")),  // = TXT#1
+		fmt.Sprintf("op %s u1 set %s 28 0 %s", mode, n, H("2a00::4")), // = TXT#2
+		fmt.Sprintf("op %s u1 set %s 5 0 %s", mode, n, H("z.aaa")),    // = TXT#3
+		fmt.Sprintf("op %s u1 set %s 16 1 %s", mode, n, H("8.8.8.8")), // = A#0 (dry) / former A#0
+		fmt.Sprintf("op %s u1 set %s 16 0 %s", mode, n, H("9.9.9.9")), // = A#1 when committed
+		fmt.Sprintf("op %s u1 set %s 16 2 %s", mode, n, H("2a00::9")), // = AAAA#1 when committed
+		fmt.Sprintf("op %s u1 set %s 16 3 %s", mode, n, H("zz.aaa")),  // = CNAME#0 (dry) / former CNAME#0
+		fmt.Sprintf("op %s u1 set %s 1 1 %s", mode, n, H("8.8.4.4")),  // committed: now a real duplicate of A#0 -> refused
+		fmt.Sprintf("op %s u1 add %s 1 %s", mode, n, H("2.2.2.2")),
+		fmt.Sprintf("op %s u1 set %s 16 1 %s", mode, n, H("2.2.2.2")),
+	} {
+		g.op(l)
+	}
+	for _, t := range []int{typA, typAAAA, typCNAME, typTXT} {
+		g.op(fmt.Sprintf("op dry - get %s %d", n, t))
 	}
 }
 
@@ -1247,7 +1286,7 @@ func (g *gen) history(rng *rand.Rand) {
 	datas := map[int][]string{
 		typA:     {"8.8.8.8", "1.2.3.4", "203.0.113.7", "+1.2.3.4", "+05.2.3.4", "10.0.0.1", "192.168.1.1", "8.8.8.0", "08.8.8.8", "256.1.1.1", "1.2.3", "8.8.8.08", "172.32.0.1", "172.31.0.1", "1.1.1.1a"},
 		typCNAME: {"a.com", "b1.org", "x", "com", "A.com", "a..com", "-a.com", "a.c-m", "a.9om", "a.b.c.d.com"},
-		typTXT:   {"", "t", "hello world", strings.Repeat("x", 255), strings.Repeat("x", 256), "\xff\xfe"},
+		typTXT:   {"", "t", "hello world", strings.Repeat("x", 255), strings.Repeat("x", 256), "\xff\xfe", "8.8.8.8", "1.2.3.4", "2a00::1", "a.com", "b1.org"},
 		typAAAA:  {"2a00::1", "2001:ffff::1", "2001:f00::1", "2003:1:2:3:4:5:6::", "2003::1:2:3:4:5:6", "2001:db8::1", "::1", "2a00:1:2:3:4:5:6:7:8", "2A00::AbCd", "2a00::12345", "2a00:::1", "fe80::1", "2a00::1.2.3.4"},
 	}
 	types := []int{typA, typCNAME, typTXT, typAAAA, typTXT, typA, typAAAA, typSOA, 0}
@@ -1327,6 +1366,18 @@ func (g *gen) history(rng *rand.Rand) {
 			d := hx.Pick(rng, datas[typ])
 			if rng.IntN(5) == 0 {
 				d = g.structuredName(rng)
+			}
+			if rng.IntN(3) == 0 {
+				// the text of a record of another type of the same name (duplicates are per type)
+				var others []string
+				for _, k2 := range keys {
+					if p2 := strings.Split(k2, "\x00"); p2[1] == p[1] && p2[2] != p[2] {
+						others = append(others, w.st.recs[k2]...)
+					}
+				}
+				if len(others) > 0 {
+					d = hx.Pick(rng, others)
+				}
 			}
 			g.op(fmt.Sprintf("op tx %s set %s %d %d %s", s, H(p[1]), typ, id, H(d)))
 			g.op(fmt.Sprintf("op dry - get %s %d", H(p[1]), typ))
